@@ -211,7 +211,8 @@ def run(chk, ctx) -> None:
     from .c16 import _fields
     from .helpers import Refile
     hh = prog.cls('HandHistory')
-    _fields(Refile(chk, {'C16.names': 'C11.codes'}), ctx, hh, hh.methods.get('from_game_state'))
+    from .helpers import foreign
+    foreign(chk, _fields, Refile(chk, {'C16.names': 'C11.codes'}), ctx, hh, hh.methods.get('from_game_state'))
     # ... and the class a code stands for is looked up afresh (a remembered game type survives a change of the variant field)
     from ..ctx import _dynamic
     gt = hh.methods.get('game_type')
